@@ -241,7 +241,68 @@ def rule_d(ctx, out):
         raise AnalysisError("fewer than 8 functions reachable from verify_block_from_list_of_sfs")
 
 
+def tuple_returning(ctx, modules):
+    res = {}
+    for f in ctx.p.functions.values():
+        if f.module.name not in modules:
+            continue
+        rets = [r for r in own_nodes(f.node) if isinstance(r, ast.Return) and r.value is not None]
+        if rets and all(isinstance(r.value, ast.Tuple) and len(r.value.elts) >= 2 for r in rets):
+            res[f.qual] = f
+    return res
+
+
+def _truth_context(n):
+    """Is expression node n evaluated for its truth value?"""
+    p = getattr(n, "_parent", None)
+    if isinstance(p, (ast.If, ast.While, ast.IfExp, ast.Assert)) and p.test is n:
+        return "condition"
+    if isinstance(p, ast.BoolOp):
+        return "and/or operand"
+    if isinstance(p, ast.UnaryOp) and isinstance(p.op, ast.Not):
+        return "not operand"
+    if isinstance(p, (ast.GeneratorExp, ast.ListComp)) and p.elt is n:
+        pp = getattr(p, "_parent", None)
+        if isinstance(pp, ast.Call) and call_name(pp) in ("all", "any"):
+            return f"{call_name(pp)}() element"
+    if isinstance(p, ast.comprehension) and n in p.ifs:
+        return "comprehension filter"
+    return None
+
+
+def rule_e(ctx, out):
+    """A (verdict, reason) pair is always truthy: using the pair itself as a condition accepts everything."""
+    mods = {V, "gasol_asm"}
+    T = tuple_returning(ctx, mods)
+    if len(T) < 6:
+        raise AnalysisError(f"only {len(T)} pair-returning functions found in the comparison modules")
+    n = 0
+    for f in ctx.p.functions.values():
+        if f.module.name not in mods:
+            continue
+        pair_names = set()
+        for node in own_nodes(f.node):
+            if isinstance(node, ast.Call):
+                tg = ctx.r.resolve_call(f, node)
+                if len(tg) == 1 and tg[0].qual in T:
+                    n += 1
+                    c = _truth_context(node)
+                    if c:
+                        out.bad(f"pair-used-as-truth-value:{f.name}:{tg[0].name}", f"{f.name} uses the (verdict, reason) pair returned by {tg[0].name} as {c}: "
+                                f"a non-empty tuple is always true, so the comparison accepts everything", where(f, node))
+                    else:
+                        out.ok()
+                    p = getattr(node, "_parent", None)
+                    if isinstance(p, ast.Assign) and len(p.targets) == 1 and isinstance(p.targets[0], ast.Name):
+                        pair_names.add(p.targets[0].id)
+        for node in own_nodes(f.node):
+            if isinstance(node, ast.Name) and node.id in pair_names and isinstance(node.ctx, ast.Load) and _truth_context(node):
+                out.bad(f"pair-used-as-truth-value:{f.name}:{node.id}", f"{f.name} tests `{node.id}`, which holds a (verdict, reason) pair", where(f, node))
+    out.samples.append({"calls_of_pair_returning_functions": n, "pair_returning_functions": sorted(x.split('.')[-1] for x in T)})
+
+
 RULES = [
+    ("C05.e", "a (verdict, reason) pair is never used as a truth value", 15, rule_e),
     ("C05.a", "no opcode conflation inherited from the front-end", 40, rule_a),
     ("C05.b", "commutativity only where the EVM operation is commutative", 12, rule_b),
     ("C05.c", "an accepting answer needs every component compared", 12, rule_c),
